@@ -49,7 +49,10 @@ class Lowerer:
         g, R = self.g, self.R
         op, args, payload = g.nodes[n]
         if op == "INPUT":
-            return Frac.of(R, self.env[payload])
+            v = self.env[payload]
+            if callable(v):
+                v = v(self)
+            return Frac.of(R, v)
         if op == "CONST":
             if isinstance(payload, str):
                 raise EngineError(f"non-finite constant {payload}")
